@@ -224,6 +224,8 @@ Section Load.
     end.
 
   (* ---- LoadDir ---- *)
+  (* fi.Size() > MaxDecompressedFileSize *)
+  Definition dir_file_over_limit (size lim : Z) : bool := (size >? lim)%Z.
   (* one regular file of the directory tree: path relative to the chart directory, content *)
   Variable ignored : string -> bool -> bool.   (* rules.Ignore(path, isDir), .helmignore + defaults *)
 
@@ -244,7 +246,7 @@ Section Load.
     | [] => inr []
     | f :: t =>
         if eff_ignored (f_name f) then dir_files t
-        else if (slen (f_data f) >? maxf)%Z then inl LDirTooBig
+        else if dir_file_over_limit (slen (f_data f)) maxf then inl LDirTooBig
         else match dir_files t with
              | inl e => inl e
              | inr r => inr (mkFile (f_name f) (trim_bom (f_data f)) :: r)
